@@ -141,9 +141,40 @@ func (s *c10) genLayered(r *kit.Rng) []*wire.MsgTx {
 	return txs
 }
 
+// genLarge draws a block of several hundred small transactions with sparse
+// spends between them (work that an implementation may split into shares).
+func (s *c10) genLarge(r *kit.Rng) []*wire.MsgTx {
+	n := r.Range(256, 420)
+	var txs []*wire.MsgTx
+	for i := 0; i < n; i++ {
+		var in txIn
+		if i > 0 && r.Chance(1, 3) {
+			p := txs[r.Intn(i)]
+			in.prev = p.TxHash()
+			in.index = uint32(r.Intn(len(p.TxOut) + 1))
+		} else {
+			copy(in.prev[:], r.Bytes(32))
+		}
+		var outs [][]byte
+		for k, m := 0, r.Range(1, 2); k < m; k++ {
+			d := r.Bytes(6)
+			if r.Chance(1, 4) {
+				d = s.pool[r.Intn(len(s.pool))]
+			}
+			outs = append(outs, makeScript([]int{skP2PKH, skP2PK, skMultisig}[r.Intn(3)], d, r.Bytes(5)))
+		}
+		txs = append(txs, buildTx(1, []txIn{in}, outs, uint32(i)))
+	}
+	s.st.Probe("block-of-several-hundred-transactions")
+	return txs
+}
+
 func (s *c10) genBlock(r *kit.Rng) []*wire.MsgTx {
 	if r.Chance(1, 60) {
 		return s.genLayered(r)
+	}
+	if r.Chance(1, 150) {
+		return s.genLarge(r)
 	}
 	n := r.Range(1, 12)
 	if r.Chance(1, 2) {
